@@ -2,6 +2,8 @@ package props
 
 import (
 	"os"
+
+	"github.com/rs/zerolog"
 	"strconv"
 	"testing"
 
@@ -9,6 +11,7 @@ import (
 )
 
 func TestMain(m *testing.M) {
+	zerolog.SetGlobalLevel(zerolog.Disabled) // the client package logs every frame
 	if os.Getenv("VERIF_WORKER") != "" {
 		workerMain()
 		os.Exit(0)
